@@ -41,6 +41,8 @@ PROPS = {
     "C01": {
         "suites": ["c01"],
         "level": "proof",
+        "extra_modules": [{"module": "GeoProofs.Props.GlueBridge", "theorems": ["Geo.glue_polyEmpty", "Geo.glue_polyRect", "Geo.glue_polyContainsPoint", "Geo.glue_polyIntersectsPoint", "Geo.glue_lineIntersectsPoint", "Geo.glue_nil"]}],
+        "translators": [{"name": "glue", "out": "GlueGen.lean"}],
         "proof_module": "GeoProofs.Props.C01All",
         "theorems": ["Geo.containsPoint_fold_perm", "Geo.ringContainsPoint_hit_iff", "Geo.ringContainsPoint_hit_iff_none", "Geo.ringContainsPoint_hit_iff_quadtree", "Geo.ringContainsPoint_idx_on", "Geo.rectRing_containsPoint_iff", "Geo.polyContainsPoint_iff", "Geo.lineContainsPoint_iff", "Geo.rectContainsPoint_iff", "Geo.ringContainsPoint_index_indep", "Geo.ringContainsPoint_hit_iff_rtree", "Geo.polyContainsPoint_iff_rtree", "Geo.lineContainsPoint_iff_rtree", "Geo.c01_leaf_point_relations", "Geo.c01_obj_point_exact", "Geo.c01_obj_point_exact_shape", "Geo.Geom.C01Cfg.member_eq", "Geo.c01Cfg_poly_none", "Geo.c01Cfg_line_none", "Geo.c01Cfg_line_dyadic", "Geo.c01Cfg_poly_dyadic", "Geo.c01_point_relations_agree", "Geo.c01_intersects_point_all", "Geo.c01_contains_point_all", "Geo.c01_point_intersects_all"],
         "trivial_sigs": set(),
@@ -64,6 +66,8 @@ PROPS = {
     "C02": {
         "suites": ["c02"],
         "level": "proof",
+        "extra_modules": [{"module": "GeoProofs.Props.GlueBridge", "theorems": ["Geo.glue_polyIntersectsRect", "Geo.glue_polyIntersectsLine", "Geo.glue_polyIntersectsPoly", "Geo.glue_rectIntersectsLine", "Geo.glue_rectIntersectsPoly", "Geo.glue_lineIntersectsRect", "Geo.glue_lineIntersectsPoly"]}],
+        "translators": [{"name": "glue", "out": "GlueGen.lean"}],
         "proof_module": "GeoProofs.Props.C02All",
         "theorems": ["Geo.rect_intersects_rect_iff", "Geo.rect_intersects_rect_illformed", "Geo.rect_intersects_symm", "Geo.lineIntersectsLine_iff", "Geo.lineIntersectsLine_symm", "Geo.lineIntersectsLine_iff_mk", "Geo.point_intersects_iff", "Geo.point_intersects_line_iff", "Geo.point_intersects_rect_spec", "Geo.geom_intersects_symm_pointrect", "Geo.geom_intersects_dispatch_symm", "Geo.geom_intersects_symm_partial", "Geo.ringIntersectsSegment_sound", "Geo.ringIntersectsSegment_sound_mk", "Geo.vertex_on_segment", "Geo.ringIntersectsLine_sound", "Geo.ringIntersectsRing_sound", "Geo.edge_identity", "Geo.edge_flip", "Geo.parity_add_eq_crossings", "Geo.parity_const_of_avoids", "Geo.parity_flips_of_one_proper_crossing_idx", "Geo.parity_flips_of_one_proper_crossing", "Geo.inRing_const_of_avoids", "Geo.segment_outside_of_avoids", "Geo.segment_inside_of_avoids", "Geo.region_meets_segment_iff", "Geo.ringIntersectsSegment_exact_all", "Geo.ringIntersectsSegment_exact_indexed", "Geo.ringIntersectsSegment_exact", "Geo.ringIntersectsSegment_two_edges", "Geo.rectRingIntersectsSegment_exact", "Geo.rectRing_region", "Geo.rectRing_illformed", "Geo.ringIntersectsLine_exact_all", "Geo.ringIntersectsLine_exact", "Geo.rectRingIntersectsLine_exact", "Geo.ringIntersectsRing_exact_all", "Geo.ringIntersectsRing_exact", "Geo.rectRingIntersectsRing_exact", "Geo.regions_share_iff", "Geo.spec_meets_iff", "Geo.geom_intersects_iff_noholes", "Geo.geom_intersects_exact_noholes", "Geo.geom_intersects_symm_noholes", "Geo.ringContainsRing_strict_exact", "Geo.spec_meets_iff_holes", "Geo.geom_intersects_exact_holes_of_convexOK", "Geo.geom_intersects_symm_holes_of_convexOK", "Geo.holesConvexOK_of_nonconvex", "Geo.geom_intersects_exact_holes_of_nonconvex", "Geo.IX.convexOK_rect", "Geo.IX.two_edges_of_meets", "Geo.IX.regions_disjoint_of_boundaries_out", "Geo.IX.strict_nesting_rect", "Geo.IX.rect_filled_strict", "Geo.IX.region_inside_of_boundary_inside", "Geo.convexOK_of_support", "Geo.supportOK_of_simple", "Geo.convexOK_of_simple", "Geo.holesConvexOK_of_valid", "Geo.geom_intersects_exact_holes", "Geo.geom_intersects_symm_holes", "Geo.pentagram_not_convex"],
         "trivial_sigs": set(),
@@ -75,7 +79,8 @@ PROPS = {
     "C03": {
         "suites": ["c03"],
         "level": "proof",
-        "extra_modules": [{"module": "GeoProofs.Props.C03Convex", "theorems": ["Geo.closedRegion_convex", "Geo.closedRegion_iff_halfplanes", "Geo.ringContainsSegment_convex_flag", "Geo.ringContainsSegment_convex_exact", "Geo.ringContainsRing_convex_exact", "Geo.ringContainsLine_convex_exact", "Geo.poly_contains_exact_convex", "Geo.simpleRing_imp_ringSimple", "Geo.geom_contains_index_indep_valid", "Geo.geom_contains_index_indep_valid_sized", "Geo.plain_eq_build", "Geo.geom_contains_exact_convex_indexed", "Geo.rect_contains_exact_valid", "Geo.contains_exact_convex_receivers", "Geo.geom_contains_reflX_convex", "Geo.geom_contains_reflY_convex", "Geo.geom_contains_transpose_convex", "Geo.ringContainsRing_vertices_sound", "Geo.convex_flag_nonsimple_counterexample"]}, {"module": "GeoProofs.Props.C03Spec", "theorems": ["Geo.spec_covers_iff", "Geo.jordan_two_components", "Geo.spec_interiorPoint_strict", "Geo.spec_covers_refl", "Geo.spec_covers_trans", "Geo.spec_covers_imp_meets", "Geo.spec_covers_antisymm"]}],
+        "extra_modules": [{"module": "GeoProofs.Props.GlueBridge", "theorems": ["Geo.glue_polyContainsRect", "Geo.glue_polyContainsLine", "Geo.glue_polyContainsPoly", "Geo.glue_rectContainsLine", "Geo.glue_rectContainsPoly", "Geo.glue_lineContainsRect"]}, {"module": "GeoProofs.Props.C03Convex", "theorems": ["Geo.closedRegion_convex", "Geo.closedRegion_iff_halfplanes", "Geo.ringContainsSegment_convex_flag", "Geo.ringContainsSegment_convex_exact", "Geo.ringContainsRing_convex_exact", "Geo.ringContainsLine_convex_exact", "Geo.poly_contains_exact_convex", "Geo.simpleRing_imp_ringSimple", "Geo.geom_contains_index_indep_valid", "Geo.geom_contains_index_indep_valid_sized", "Geo.plain_eq_build", "Geo.geom_contains_exact_convex_indexed", "Geo.rect_contains_exact_valid", "Geo.contains_exact_convex_receivers", "Geo.geom_contains_reflX_convex", "Geo.geom_contains_reflY_convex", "Geo.geom_contains_transpose_convex", "Geo.ringContainsRing_vertices_sound", "Geo.convex_flag_nonsimple_counterexample"]}, {"module": "GeoProofs.Props.C03Spec", "theorems": ["Geo.spec_covers_iff", "Geo.jordan_two_components", "Geo.spec_interiorPoint_strict", "Geo.spec_covers_refl", "Geo.spec_covers_trans", "Geo.spec_covers_imp_meets", "Geo.spec_covers_antisymm"]}],
+        "translators": [{"name": "glue", "out": "GlueGen.lean"}],
         "proof_module": "GeoProofs.Props.C03All",
         "theorems": ["Geo.line_walk_terminates", "Geo.line_containsLine_eq", "Geo.rect_contains_rect_iff", "Geo.rect_contains_rect_illformed", "Geo.rect_contains_point_iff", "Geo.rect_contains_point_spec", "Geo.point_contains_point_iff", "Geo.point_contains_rect_iff", "Geo.box_contains_seriesRect_iff", "Geo.rect_contains_line_iff", "Geo.rect_contains_line_empty", "Geo.rect_contains_line_iff_onSeg", "Geo.rect_contains_poly_iff", "Geo.rect_contains_rectpoly", "Geo.seriesRect_eq_ptbox_iff", "Geo.point_contains_line_iff", "Geo.point_contains_poly_iff", "Geo.line_contains_point_iff", "Geo.line_contains_point_spec", "Geo.D4_wrong_true", "Geo.D4_wrong_false", "Geo.D5_wrong_true", "Geo.D5_wrong_false", "Geo.D13_wrong_true", "Geo.ringContainsSegment_of_avoids", "Geo.ringContainsSegment_of_avoids_all", "Geo.ringContainsSegment_false_of_avoids", "Geo.ringContainsRing_of_avoids", "Geo.ringContainsRing_of_avoids_all", "Geo.ringContainsRing_of_avoids_rect", "Geo.ringContainsLine_of_avoids", "Geo.ringIntersectsSegment_of_avoids", "Geo.ringIntersectsLine_strict_of_avoids", "Geo.ringIntersectsRing_strict_of_avoids", "Geo.poly_contains_line_of_no_contact", "Geo.poly_contains_rect_of_no_contact", "Geo.poly_contains_point_exact", "Geo.poly_contains_poly_noholes_of_no_contact", "Geo.poly_contains_exact_of_no_contact", "Geo.poly_containsPoly_closed_form", "Geo.line_contains_of_no_contact", "Geo.interiorOK_of_check", "Geo.ringContainsRing_shortcut_counterexample", "Geo.poly_contains_general_position_counterexample"],
         "trivial_sigs": set(),
@@ -202,6 +207,7 @@ PROPS = {
     "C12": {
         "suites": ["c12"],
         "level": "proof",
+        "extra_modules": [{"module": "GeoProofs.Props.C12ReencContains", "theorems": ["Geo.convex_flag_reenc", "Geo.convexReceiver_reenc", "Geo.spec_covers_reenc", "Geo.geom_contains_reenc_convex", "Geo.geom_contains_reenc_counterexample", "Geo.geom_contains_reenc_counterexample_poly", "Geo.geom_contains_hole_order"]}, {"module": "GeoProofs.Props.C12Reenc", "theorems": ["Geo.ring_parity_reenc", "Geo.ring_inRing_reenc", "Geo.simpleRing_reenc", "Geo.member_reenc", "Geo.valid_reenc", "Geo.spec_meets_reenc", "Geo.geom_intersects_reenc", "Geo.geom_intersects_hole_order"]}],
         "proof_module": "GeoProofs.Props.C12All",
         "theorems": ["Geo.raycast_translate", "Geo.raycast_scale", "Geo.raycast_translate_eq", "Geo.raycast_scale_eq", "Geo.segIntersectsS_translate", "Geo.segIntersectsS_scale", "Geo.segIntersects_translate", "Geo.segIntersects_scale", "Geo.collinearPt_translate", "Geo.collinearPt_scale", "Geo.segContainsSeg_translate", "Geo.segContainsSeg_scale", "Geo.onSeg_reflX", "Geo.onSeg_reflY", "Geo.onSeg_transpose", "Geo.segsMeet_reflX", "Geo.segsMeet_reflY", "Geo.segsMeet_transpose", "Geo.raycast_on_reflX", "Geo.raycast_on_reflY", "Geo.raycast_on_transpose", "Geo.segIntersects_reflX", "Geo.segIntersects_reflY", "Geo.segIntersects_transpose", "Geo.segContainsSeg_reflX", "Geo.segContainsSeg_reflY", "Geo.segContainsSeg_transpose", "Geo.lineIntersectsLine_of_symm", "Geo.lineIntersectsLine_reflX", "Geo.lineIntersectsLine_reflY", "Geo.lineIntersectsLine_transpose", "Geo.lineContainsPoint_of_symm", "Geo.lineContainsPoint_reflX", "Geo.lineContainsPoint_reflY", "Geo.lineContainsPoint_transpose", "Geo.raycast_inn_reflX_counterexample", "Geo.processPoints_translate", "Geo.processPoints_scale", "Geo.processPoints_map_empty", "Geo.convexSpec_reflX", "Geo.convexSpec_reflY", "Geo.convexSpec_transpose", "Geo.clockwiseSpec_reflX", "Geo.clockwiseSpec_reflY", "Geo.clockwiseSpec_transpose", "Geo.processPoints_reflX", "Geo.processPoints_reflY", "Geo.processPoints_transpose", "Geo.ringContainsPoint_translate", "Geo.ringContainsPoint_scale", "Geo.ringContainsPoint_translate_hit", "Geo.ringContainsPoint_scale_hit", "Geo.ringContainsSegment_aff", "Geo.ringIntersectsSegment_aff", "Geo.ringContainsRing_aff", "Geo.ringIntersectsRing_aff", "Geo.ringIntersectsLine_aff", "Geo.line_containsLineO_aff", "Geo.geom_contains_aff", "Geo.geom_intersects_aff", "Geo.geom_contains_translate", "Geo.geom_intersects_translate", "Geo.geom_contains_scale", "Geo.geom_intersects_scale", "Geo.raycast_inn_neg_scale_counterexample", "Geo.parity_left_eq_right", "Geo.parity_reflX", "Geo.parity_reflY", "Geo.parity_transpose", "Geo.parityUp_eq_parity", "Geo.parity_reflX_onBoundary_counterexample", "Geo.onBoundary_reflX", "Geo.onBoundary_reflY", "Geo.onBoundary_transpose", "Geo.inRing_reflX", "Geo.inRing_reflY", "Geo.inRing_transpose", "Geo.strictIn_reflX", "Geo.strictIn_reflY", "Geo.strictIn_transpose", "Geo.member_reflX", "Geo.member_reflY", "Geo.member_transpose", "Geo.member_reflX_illformed_rect", "Geo.valid_reflX", "Geo.valid_reflY", "Geo.valid_transpose", "Geo.holesConvexOK_reflX", "Geo.holesConvexOK_reflY", "Geo.holesConvexOK_transpose", "Geo.meets_reflX", "Geo.meets_reflY", "Geo.meets_transpose", "Geo.geom_intersects_reflX", "Geo.geom_intersects_reflY", "Geo.geom_intersects_transpose", "Geo.geom_intersects_reflX_noholes", "Geo.geom_intersects_reflY_noholes", "Geo.geom_intersects_transpose_noholes", "Geo.Sym.parity_map", "Geo.meets_reflX_of_valid", "Geo.geom_intersects_reflX_mapPts", "Geo.geom_intersects_reflY_mapPts", "Geo.geom_intersects_transpose_mapPts", "Geo.geom_mapPts_reflX_rect_wrong", "Geo.parity_rot90", "Geo.parity_neg", "Geo.geom_intersects_rot90", "Geo.geom_intersects_neg"],
         "trivial_sigs": set(),
